@@ -28,6 +28,36 @@ def unit(ty, N):
     return N(u.numerator) / N(u.denominator)
 
 
+def round_to(ty, frac):
+    """the float of type ty nearest to the Fraction frac (ties to even), as a Fraction;
+    OverflowError beyond the finite range. Subnormal results are not rounded (returned exactly)."""
+    if frac == 0:
+        return frac
+    if ty == "f64":
+        return F(float(frac))
+    mant = 24
+    n, m = abs(frac.numerator), frac.denominator
+    s = n.bit_length() - m.bit_length() - mant
+    # scaled = |frac| / 2^s lies in [2^(mant-1), 2^(mant+1)); bring it into [2^(mant-1), 2^mant)
+    def scaled(sh):
+        return F(n, m) / (F(2) ** sh)
+    while scaled(s) >= 2 ** mant:
+        s += 1
+    while scaled(s) < 2 ** (mant - 1):
+        s -= 1
+    if s < -149:
+        return frac
+    q = scaled(s)
+    k = q.numerator // q.denominator
+    rem = q - k
+    if rem > F(1, 2) or (rem == F(1, 2) and k % 2 == 1):
+        k += 1
+    val = F(k) * (F(2) ** s)
+    if val >= F(2) ** 128:
+        raise OverflowError()
+    return val if frac > 0 else -val
+
+
 def floor_div(a, b):
     """floor(a / b) as an int, for Fraction and Decimal alike (b > 0)"""
     q = a / b
